@@ -523,7 +523,7 @@ pub fn gen_request(t: &mut Tape, meta: &Meta, now_ns: u128, k: &ReqKnobs) -> Req
         let n = if k.hostile && t.chance(1, 24) {
             // very long range sets (spilling any inline storage)
             40 + t.draw(260)
-        } else if k.ranges == 2 && t.chance(1, 24) {
+        } else if t.chance(1, if k.ranges == 2 { 24 } else { 12 }) {
             // a part count taken from the source dictionary (a cap such as 1 << 8 is hit on purpose)
             crate::dict::pick_in(t.draw(1 << 16), 3, 400).unwrap_or(9) as u32
         } else if k.ranges == 2 {
